@@ -1,0 +1,92 @@
+//go:build verif
+
+package types
+
+// Contracts and spec functions for the verification machinery in /verif (build tag "verif").
+// The spec functions are transcribed from the Redis encodings (listpack.c, ziplist.c), not
+// from the code under test: integers are defined by sign extension of the stored bits.
+
+// SpecLpBacklenSize: listpack.c lpEncodeBacklen - number of bytes of the back-length field
+// of an entry whose encoding + payload take l bytes.
+func SpecLpBacklenSize(l uint32) uint32 {
+	if l <= 127 {
+		return 1
+	}
+	if l < 16383 {
+		return 2
+	}
+	if l < 2097151 {
+		return 3
+	}
+	if l < 268435455 {
+		return 4
+	}
+	return 5
+}
+
+// SpecSext: value of the low `bits` bits of u read as a two's complement integer.
+func SpecSext13(u uint64) int64 { return int64(int16(uint16(u)<<3)) >> 3 }
+func SpecSext16(u uint64) int64 { return int64(int16(uint16(u))) }
+func SpecSext24(u uint64) int64 { return int64(int32(uint32(u)<<8)) >> 8 }
+func SpecSext32(u uint64) int64 { return int64(int32(uint32(u))) }
+
+// SpecDec is the decimal text of v (abstract: strconv.FormatInt(v, 10)).
+func SpecDec(v int64) string { panic("abstract spec function") }
+
+//@ spec SpecDec abstract
+
+//@ func strconv.FormatInt(i, base) (s)
+//@   trusted library contract: decimal rendering is the abstract function SpecDec
+//@   ensures dec: base == 10 ==> s == SpecDec(i)
+
+//@ func lpEncodeBacklen
+//@   arith bv
+//@   properties C03
+//@   replay types_decoders
+//@   ensures size: result == len + SpecLpBacklenSize(len)
+
+// Listpack.Next: integer entries decode to the decimal text of the sign-extended stored bits,
+// the cursor advances by encoding + payload + back-length.
+//@ func Listpack.Next
+//@   arith bv
+//@   properties C03
+//@   replay types_decoders
+//@   requires nonnil: lp != nil
+//@   modifies lp.p
+//@   ensures uint7: old(lp.data[lp.p]) & 0x80 == 0 ==> string(result) == SpecDec(int64(old(lp.data[lp.p]) & 0x7f)) && lp.p == old(lp.p) + 2
+//@   ensures int13: old(lp.data[lp.p]) & 0xE0 == 0xC0 ==> string(result) == SpecDec(SpecSext13(uint64(old(lp.data[lp.p]) & 0x1f) << 8 | uint64(old(lp.data[lp.p + 1])))) && lp.p == old(lp.p) + 3
+//@   ensures int16: old(lp.data[lp.p]) == 0xF1 ==> string(result) == SpecDec(SpecSext16(uint64(old(lp.data[lp.p + 1])) | uint64(old(lp.data[lp.p + 2])) << 8)) && lp.p == old(lp.p) + 4
+//@   ensures int24: old(lp.data[lp.p]) == 0xF2 ==> string(result) == SpecDec(SpecSext24(uint64(old(lp.data[lp.p + 1])) | uint64(old(lp.data[lp.p + 2])) << 8 | uint64(old(lp.data[lp.p + 3])) << 16)) && lp.p == old(lp.p) + 5
+//@   ensures int32: old(lp.data[lp.p]) == 0xF3 ==> string(result) == SpecDec(SpecSext32(uint64(old(lp.data[lp.p + 1])) | uint64(old(lp.data[lp.p + 2])) << 8 | uint64(old(lp.data[lp.p + 3])) << 16 | uint64(old(lp.data[lp.p + 4])) << 24)) && lp.p == old(lp.p) + 6
+//@   ensures str6: old(lp.data[lp.p]) & 0xC0 == 0x80 ==> result == old(lp.data[lp.p + 1 : lp.p + 1 + uint32(lp.data[lp.p] & 0x3f)]) && lp.p == old(lp.p) + 1 + uint32(old(lp.data[lp.p]) & 0x3f) + SpecLpBacklenSize(1 + uint32(old(lp.data[lp.p]) & 0x3f))
+
+// ReadZiplistEntry2: entries of a ziplist (ziplist.c zipLoadInteger). The entry header sits at the
+// cursor, or 4 bytes further when the previous-entry length was announced by 0xFE (5-byte form).
+//@ pred zlB(buf, firstByte, k): buf.s[buf.i + ite(firstByte == 0xFE, 4, 0) + k]
+//@ func ReadZiplistEntry2
+//@   arith bv
+//@   properties C03
+//@   replay types_decoders
+//@   requires nonnil: buf != nil
+//@   requires sane: 0 <= buf.i && buf.i <= len(buf.s)
+//@   modifies buf.i
+//@   ensures int8: old(zlB(buf, firstByte, 0)) == 0xfe ==> string(result) == SpecDec(int64(int8(old(zlB(buf, firstByte, 1)))))
+//@   ensures int16: old(zlB(buf, firstByte, 0)) == 0xc0 ==> string(result) == SpecDec(SpecSext16(uint64(old(zlB(buf, firstByte, 1))) | uint64(old(zlB(buf, firstByte, 2))) << 8))
+//@   ensures int24: old(zlB(buf, firstByte, 0)) == 0xf0 ==> string(result) == SpecDec(SpecSext24(uint64(old(zlB(buf, firstByte, 1))) | uint64(old(zlB(buf, firstByte, 2))) << 8 | uint64(old(zlB(buf, firstByte, 3))) << 16))
+//@   ensures int32: old(zlB(buf, firstByte, 0)) == 0xd0 ==> string(result) == SpecDec(SpecSext32(uint64(old(zlB(buf, firstByte, 1))) | uint64(old(zlB(buf, firstByte, 2))) << 8 | uint64(old(zlB(buf, firstByte, 3))) << 16 | uint64(old(zlB(buf, firstByte, 4))) << 24))
+//@   ensures imm4: old(zlB(buf, firstByte, 0)) >> 4 == 0x0f && old(zlB(buf, firstByte, 0)) != 0xf0 && old(zlB(buf, firstByte, 0)) != 0xfe ==> string(result) == SpecDec(int64(old(zlB(buf, firstByte, 0)) & 0x0f) - 1)
+//@   ensures entry_is_not_nil: result != nil
+
+// Ziplist.Next with an unknown entry count (zllen == 65535): the list ends at the 0xFF marker
+// and nowhere else - a 0xFE byte starts an entry whose previous entry was long.
+//@ func Ziplist.Next
+//@   arith bv
+//@   properties C03
+//@   replay types_decoders
+//@   requires nonnil: zl != nil && zl.buf != nil
+//@   requires sane: 0 <= zl.buf.i && zl.buf.i <= len(zl.buf.s)
+//@   modifies zl.pos, zl.end, zl.buf.i
+//@   ensures unknown_count_ends_at_ff: old(zl.length) == 65535 && !old(zl.end) && old(zl.buf.s[zl.buf.i]) == 0xFF ==> result == nil && zl.end
+//@   ensures unknown_count_entry: old(zl.length) == 65535 && !old(zl.end) && old(zl.buf.s[zl.buf.i]) != 0xFF ==> result != nil && !zl.end
+//@   ensures known_count_entry: old(zl.length) != 65535 && !old(zl.end) && old(zl.pos) < old(zl.length) ==> result != nil && zl.pos == old(zl.pos) + 1
+//@   ensures ended_stays_ended: old(zl.end) ==> result == nil
